@@ -191,6 +191,7 @@ fn seq_history(n_ops: usize) {
 }
 rw_harness! { #[kani::unwind(5)] fn c12_rwlock_seq_3ops() { seq_history(3) } }
 rw_harness! { #[kani::unwind(6)] fn c12_rwlock_seq_4ops() { seq_history(4) } }
+rw_harness! { #[kani::unwind(8)] fn c12_rwlock_seq_6ops() { seq_history(6) } }
 
 fn maybe_poison(l: &'static RwLock<u8>) -> bool {
     let poisoned: bool = kani::any();
